@@ -92,6 +92,17 @@ def generate(tier, rng):
             variants = rng.sample(variants, 6)
         for v in variants:
             yield dict(c, ops=c["ops"][:-1] + [v])
+    for _ in range(80 if tier == "quick" else 1000):
+        # trees mixing NodeMixin- and LightNodeMixin-based nodes are not supported by the library (an attach across the two
+        # families fails with AttributeError on the other family's private list) and are outside the mirror; but however such
+        # a call ends, both link directions must still agree afterwards (checked on the implementation alone)
+        n0 = rng.randrange(3, 7)
+        ops = [o for o in fc.random_history(rng, n0, rng.randrange(3, 11), nonnode=False) if o["op"] != "ctor"]
+        ops = [o for o in ops if max([o.get("n", 0)] + [x for x in (o.get("xs") or []) if isinstance(x, int)] + [o["v"] if isinstance(o.get("v"), int) else 0]) < n0]
+        c = fc.mk("nm", False, n0, ops, mixed=rng.choice([["mixin", "light"], ["light", "node", "anynode"], ["anynode", "light", "light"]]))
+        c["loglevel"] = 0
+        c["xfamily"] = True
+        yield c
     for n0, ops in fc.reentrant_histories(rng, tier):
         fl = rng.choice(["nm", "nm", "light"])
         c = fc.mk(fl, False, n0, ops, cls=(rng.choice(fc.NM_CLASSES) if fl == "nm" else None))
@@ -135,6 +146,8 @@ def judge(case, impl, drv):
     if not isinstance(impl, list):
         return False, False
     p_ok = all(fc.py_inv(r["snap"]) and r["res"] != "AssertionError" for r in impl)
+    if case.get("xfamily"):
+        return p_ok, True           # outside the mirror: the invariant is checked on the implementation alone
     mir = drv["mirror"]
     c_ok = True
     for i, r in enumerate(impl):
